@@ -146,6 +146,10 @@ def cases(tier, seed):
     for xg in scope.extreme_geometries(3):
         out.append({"kind": "layout", "geo": xg, "la": [L_id[5], None], "lb": [L_id[7], L_id[-1]], "seed": seed, "sels": [0, 2], "forms": False})
     out.append({"kind": "far", "seed": seed})
+    # level directories named otherwise than Level_k, in either input or in both
+    for pa_, pb_ in (("Lev_", "Level_"), ("Level_", "Lev_"), ("Lev_", "L")):
+        out.append({"kind": "layout", "geo": geo, "la": [L_id[5], None], "lb": [L_id[7], L_id[-1]], "seed": seed, "sels": [0, 2], "forms": False,
+                    "prefixes": [pa_, pb_]})
     # seven levels towards the far corner, twelve fields on each side: FAB header lines longer than 100 bytes
     L2 = scope.layouts(2, 'idrev')
     out.append({"kind": "layout", "geo": geo, "la": [None, L2[-1], None, L2[1], None, None, L2[2]], "lb": [L2[1], None, L2[-1], L2[2], None, L2[-1], None],
@@ -235,6 +239,8 @@ def run_case(case, workdir):
         m["levels"] = [m["levels"][0], m["levels"][1] + [[[0, 0, 0], [1, 1, 1]]]]
     da = dict(m, fields=fa_, layout=case["la"], seed=seed)
     db = dict(m, fields=fb_, layout=case["lb"], seed=seed + 1, payload="signed")
+    if case.get("prefixes"):
+        da["levelprefix"], db["levelprefix"] = case["prefixes"]
     pa, ra = build(da, workdir, "pltA")
     pb, rb = build(db, workdir, "pltB")
     pina, pinb = ParsedPlot(pa), ParsedPlot(pb)
